@@ -304,13 +304,118 @@ def corpus_cases():
     return out
 
 
+# Defects of the expression evaluator that were repaired in the library (known_findings.json,
+# status "fixed": exprtruth, exprmissing, strcasecmp, numtype, adddate, concatstr, nullarg,
+# condkeys, undefvar, filtertruth, mapmissing, missingcmp, and the $ifNull / extra-field parts of
+# laxargs): their classes no longer
+# exist in Spec/ExprDomain.lean, so these inputs lie inside D (or the rules reject them and the
+# code must raise too).  They run as ordinary cases on every run, next to the
+# witnesses of the fixed findings; the old behaviour is a VIOLATION if it comes back.
+_T0 = gen_expr.DATES[0]
+REGRESSIONS = [
+    # exprtruth / exprmissing: find({$expr: e}) over "", [], {}, 0, null, missing
+    ('$s', [{'s': ''}, {'s': 'x'}, {'s': None}, {}]),
+    ('$x', [{'x': []}, {'x': {}}, {'x': 0}, {'x': 0.0}, {'x': False}, {'x': [0]}]),
+    ({'$gt': ['$a', 0]}, [{}, {'a': 1}, {'a': 0}, {'a': None}]),
+    ({'$and': ['$s', {'$gt': ['$a', 0]}]}, [{'s': '', 'a': 1}, {'a': 1}, {'s': ''}]),
+    ('$d.n', [{}, {'d': {}}, {'d': {'n': ''}}, {'d': {'n': 0}}]),
+    # strcasecmp
+    ({'$strcasecmp': ['$s', 'ab']}, [{'s': 'AB'}, {'s': 'Ab'}, {'s': 'aC'}, {'s': 'B'}, {'s': ''}]),
+    ({'$strcasecmp': ['$s', '$u']}, [{'s': 'a', 'u': 'B'}, {'s': 'B', 'u': 'a'}, {'s': None, 'u': ''},
+                                     {'u': 'a'}, {'s': 'a'}, {}]),
+    # numtype
+    ({'$mod': ['$a', 2]}, [{'a': 5}, {'a': -5}, {'a': 5.5}, {'a': 4}, {'a': None}]),
+    ({'$mod': ['$a', '$b']}, [{'a': 7, 'b': -3}, {'a': -7, 'b': 3}, {'a': 7, 'b': 2.5},
+                              {'a': 7.5, 'b': 2}, {'a': 1, 'b': 0}]),
+    ({'$pow': ['$a', '$b']}, [{'a': 5, 'b': 2}, {'a': -2, 'b': 3}, {'a': 2, 'b': 62},
+                              {'a': 2, 'b': 63}, {'a': 2, 'b': 64}, {'a': 2.5, 'b': 2},
+                              {'a': 2, 'b': 2.0}, {'a': 3, 'b': 0}, {'a': 0, 'b': 0}]),
+    ({'$ceil': '$a'}, [{'a': 2.5}, {'a': -2.5}, {'a': 3}, {'a': 2.0}, {'a': -0.5}]),
+    ({'$floor': '$a'}, [{'a': 2.5}, {'a': -2.5}, {'a': 3}, {'a': 0.25}]),
+    ({'$trunc': '$a'}, [{'a': 2.5}, {'a': -2.5}, {'a': 3}, {'a': -0.25}]),
+    # adddate
+    ({'$add': ['$t', 1000]}, [{'t': _T0}, {'t': None}, {}]),
+    ({'$add': [1000, '$t', '$a']}, [{'t': _T0, 'a': 0.5}, {'t': _T0, 'a': 2}, {'t': _T0}]),
+    ({'$add': ['$t']}, [{'t': _T0}]),
+    ({'$add': ['$t', '$t']}, [{'t': _T0}]),
+    ({'$add': ['$t', '$s']}, [{'t': _T0, 's': 'x'}]),
+    # concatstr
+    ({'$concat': ['$s', '$x']}, [{'s': 'a', 'x': 1}, {'s': 'a', 'x': 'b'}, {'s': 'a', 'x': None},
+                                 {'s': 'a'}, {'s': 'a', 'x': True}, {'s': 'a', 'x': [1]}]),
+    # nullarg
+    ({'$year': '$t'}, [{'t': None}, {}, {'t': _T0}]),
+    ({'$millisecond': '$t'}, [{'t': None}, {}, {'t': gen_expr.DATES[1]}]),
+    ({'$toLower': '$s'}, [{}, {'s': None}, {'s': 'Ab'}]),
+    ({'$toUpper': '$s'}, [{}, {'s': None}, {'s': 'Ab'}]),
+    ({'$toString': '$x'}, [{'x': None}, {}, {'x': 5}, {'x': True}, {'x': 's'}]),
+    ({'$arrayElemAt': ['$l', '$a']}, [{'l': None, 'a': 0}, {'a': 0}, {'l': [1, 2]}, {'l': [1, 2], 'a': None},
+                                      {'l': [1, 2], 'a': 1}, {'l': [1, 2], 'a': 5}, {}]),
+    ({'$filter': {'input': '$l', 'cond': {'$gt': ['$$this', 1]}}}, [{'l': None}, {}, {'l': [1, 2, 3]}]),
+    ({'$in': ['$a', '$l']}, [{'l': [1, None]}, {'a': 1, 'l': [1]}, {'a': None, 'l': [None]},
+                             {'a': 1, 'l': None}, {'a': 1}, {}]),
+    # condkeys, laxargs ($ifNull arity, extra fields of $cond / $let)
+    ({'$cond': {'if': '$f', 'then': 1}}, [{'f': True}, {'f': False}, {}]),
+    ({'$cond': {'then': 1, 'else': 2}}, [{}]),
+    ({'$cond': {'else': 2, 'if': '$f', 'then': 1}}, [{'f': True}, {'f': False}, {}]),
+    ({'$cond': {'if': '$f', 'then': 1, 'else': 2, 'x': 3}}, [{'f': True}]),
+    ({'$ifNull': ['$a']}, [{'a': 1}, {}]),
+    ({'$ifNull': []}, [{}]),
+    ({'$ifNull': ['$a', '$b', 'c']}, [{'a': 1}, {'b': 2}, {}]),
+    ({'$let': {'vars': {'v': '$a'}, 'in': '$$v', 'x': 1}}, [{'a': 1}]),
+    ({'$let': {'vars': {'v': '$a'}, 'in': {'$add': ['$$v', 1]}}}, [{'a': 1}, {'a': None}]),
+    # undefvar
+    ({'$ifNull': ['$$nope', 1]}, [{}]),
+    ('$$nope.x', [{}]),
+    ({'$ifNull': ['$$REMOVE', 1]}, [{}]),
+    ({'$cond': ['$f', 1, '$$nope']}, [{'f': True}, {'f': False}]),
+    ({'$map': {'input': '$l', 'as': 'e', 'in': {'$add': ['$$e', '$$this']}}}, [{'l': [1]}, {'l': []}]),
+    ({'$let': {'vars': {'v': 1}, 'in': {'$map': {'input': '$l', 'in': {'$add': ['$$this', '$$v']}}}}},
+     [{'l': [1, 2]}]),
+    # missingcmp
+    ({'$lt': ['$zz', None]}, [{}]),
+    ({'$eq': ['$a', '$b']}, [{}, {'a': None}, {'b': None}, {'a': None, 'b': None}, {'a': 1}, {'a': 1, 'b': 1}]),
+    ({'$ne': ['$a', None]}, [{}, {'a': None}, {'a': 0}]),
+    ({'$gt': ['$a', '$b']}, [{}, {'a': None}, {'b': None}, {'a': 0, 'b': -1}]),
+    ({'$gte': ['$a', '$b']}, [{}, {'a': None}, {'b': None}]),
+    ({'$lte': ['$a', '$b']}, [{}, {'a': None}, {'b': None}]),
+    ({'$cond': [{'$lt': ['$a', 1]}, 'small', 'big']}, [{}, {'a': 0}, {'a': 5}]),
+    # filtertruth
+    ({'$filter': {'input': '$x', 'cond': '$$this'}},
+     [{'x': ['', 'x', 0, [], {}, None, False, 1, 0.0]}, {'x': []}]),
+    ({'$filter': {'input': '$l', 'cond': '$zz'}}, [{'l': [1, 2]}, {'l': [1], 'zz': ''}]),
+    ({'$filter': {'input': '$q', 'as': 'e', 'cond': '$$e.n'}}, [{'q': [{'n': 1}, {'p': 2}, {'n': ''}]}]),
+    # mapmissing
+    ({'$map': {'input': '$l', 'in': '$zz'}}, [{'l': [1, 2]}, {'l': [1], 'zz': 5}, {'l': []}]),
+    ({'$map': {'input': '$q', 'in': '$$this.n'}}, [{'q': [{'n': 1}, {'p': 2}]}, {'q': [{}]}]),
+    ({'$map': {'input': '$l', 'in': {'$divide': [1, '$$this']}}}, [{'l': [1, 0]}, {'l': [2]}]),
+]
+
+
+def fixed_cases():
+    """the witnesses of the repaired findings and the REGRESSIONS table, as ordinary cases"""
+    out = []
+    for e in common.load_known('C04'):
+        if e.get('status') != 'fixed':
+            continue
+        oids = wire.Oids()
+        w = e['witness']
+        out.append({'expr': wire.dec(w['wire_expr'], oids), 'type': 'any',
+                    'docs': [wire.dec(w['wire_doc'], oids)], 'oids': oids, 'ops': {},
+                    'fixed': e['id']})
+    for expr, docs in REGRESSIONS:
+        out.append({'expr': copy.deepcopy(expr), 'type': 'any',
+                    'docs': [dict({'_id': i}, **copy.deepcopy(d)) for i, d in enumerate(docs)],
+                    'oids': wire.Oids(), 'ops': {}})
+    return out
+
+
 def run(ctx, proof, driver_ok):
     if not driver_ok:
         return {'explanation': 'model driver unavailable; no correspondence run'}
     n = ctx.n(12000, 150000)
     rng = random.Random(ctx.seed * 1000003 + 404)
     judge = Judge(ctx)
-    corpus = corpus_cases()
+    corpus = corpus_cases() + fixed_cases()
     run_cases(ctx, corpus, judge)
     ops = collections.Counter()
     depth = collections.Counter()
